@@ -379,6 +379,12 @@ def r16_extremum_polarity(ctx):
         reason = [p_ for p_ in bt.params if p_ != tied]
         loops = [n for n in bt.own_nodes() if isinstance(n, ast.For) and isinstance(n.iter, ast.Call)
                  and (unparse(n.iter.func) in ('range', 'reversed'))]
+        # a stage loop written some other way (over E.rounds itself, a slice of it, ...): it is there, and it is not the reference
+        other_stage_loops = [n for n in bt.own_nodes() if isinstance(n, ast.For) and n not in loops
+                             and any(isinstance(x, ast.Attribute) and ctx.canon(x, bt) == 'E.rounds' for x in ast.walk(n.iter))]
+        helper_with_loop = [c for c in bt.own_nodes() if isinstance(c, ast.Call) and isinstance(c.func, ast.Name)
+                            and d.local_func(c.func.id, bt) is not None
+                            and any(isinstance(x, ast.For) for x in d.local_func(c.func.id, bt).all_nodes())]
         dir_def = None
         if loops:
             # the index used on the sorted earlier tallies: a name defined once before the loop
@@ -413,7 +419,7 @@ def breakTie(tied, reason=None):
         ok_all = False
         if dir_def is not None and len(loops) == 1:
             ok_all = _same(ref) or _same(ref.replace('range(E.round - 1, -1, -1)', 'reversed(range(E.round))'))
-        if dir_def is None or len(loops) != 1:
+        if (dir_def is None or len(loops) != 1) and not other_stage_loops and helper_with_loop:
             ctx.unrecognised(R, bt.node, bt, 'the Scottish prior-stage search of breakTie',
                              'no single stage loop with a single definition of the index inside breakTie (moved into a helper?)')
         else:
